@@ -398,7 +398,13 @@ def r8(db, rep):
             t = facts.expr_str(l) + " " + op + " " + (facts.expr_str(r) if r is not None else "")
             ok = False
             if "sack.size()" in t or ".size()" in t and "i" in t.split("(")[0]:
-                ok = True                           # the block index is in range
+                # the block index is in range - of the WHOLE option: the bound is the container's size itself, not a
+                # smaller quantity computed from it (`min(size, 6)`: blocks beyond the third are dropped)
+                bound = facts.strip_all(r) if r is not None else None
+                other = facts.strip_all(l)
+                cand = [x_ for x_ in (bound, other) if x_ is not None and x_["k"] == "CXXMemberCallExpr" and x_.get("cname") == "size"]
+                ok = bool(cand) or not any(x_["k"] in ("ConditionalOperator",) or (x_["k"] == "CallExpr" and x_.get("cname") in ("min", "max"))
+                                           for x_ in facts.walk(r if r is not None else l))
             if "seq_compare" in t and t.count("sack[") + t.count("sack [") >= 2 and "ack_number_" not in t:
                 ok = True                           # left edge below right edge
             if "seq_compare" in t and ("last()" in t or "ack_number_" in t):
@@ -436,3 +442,22 @@ def r8(db, rep):
                       "the ACK tracker only sees segments when `%s`: with that condition false the tracker stays at the handshake ACK" % bad[:100])
     else:
         rep.ok("R8-no-extra-filter", key, facts.loc(f, calls[0]), "fed from every TCP segment when tracking is enabled")
+    # (c) what the segment acknowledges is not thrown away in the same call: members of Flow that REPLACE the tracker
+    #     (`ack_tracker_ = AckTracker(...)` when the connection is established) run before the tracker is fed
+    rec = f.get("rec")
+    resetters = set()
+    for h in db.functions.values():
+        if h.get("rec") == rec and h.get("body") and h is not f:
+            for x in facts.fn_nodes(h):
+                if x["k"] in ("BinaryOperator", "CXXOperatorCallExpr") and x.get("op") == "=" and \
+                        facts.strip_all(x["c"][0] if x["k"] == "BinaryOperator" else x["c"][1]).get("member") == "ack_tracker_":
+                    resetters.add(h["id"])
+    key = "Flow::process_packet:feed-after-reset"
+    late = [x for x in facts.fn_nodes(f) if x["k"] == "CXXMemberCallExpr" and x.get("callee") in resetters and
+            g.pos(x) and g.reachable(g.pos(calls[0]), g.pos(x))]
+    if late:
+        rep.violation("R8-no-extra-filter", key, facts.loc(f, late[0]),
+                      "%s() - which replaces ack_tracker_ by a fresh tracker when the connection is established - runs AFTER the tracker "
+                      "was fed with the same segment: the SACK blocks of that segment are discarded with the old tracker" % late[0].get("cname"))
+    else:
+        rep.ok("R8-no-extra-filter", key, facts.loc(f, calls[0]), "no member that replaces the tracker (%d found) runs after it was fed" % len(resetters))
